@@ -45,6 +45,11 @@ def wrap_variants(body_lines):
 
 
 BODIES = [
+    # a function's own name is an ordinary use of a variable: looked up when the use executes, so it sees a later assignment to that variable
+    (["fn countdown(n) { if n == 0 { return \"original 0\"; } return countdown(n - 1); }", "var old = countdown;", "countdown = |n| \"patched \" + String.from(n);",
+      "print(old(3));", "fn once() { once = || \"cached\"; return \"computed\"; }", "print(once());", "print(once());",
+      "fn step() { return step; }", "var first = step;", "step = \"rebound\";", "print(first());"],
+     ["patched 2", "computed", "cached", "rebound"]),
     # a `return` through a finally block: the variables of the still-running function stay shared between the function, the closures
     # made before the return, and the finally block
     (["fn inner() {", "    var log = \"a\";", "    var count = 1;", "    fn note(s) { log = log + \",\" + s; count = count + 1; }",
